@@ -12,5 +12,5 @@ CONSTANTS Base = 2
  RecordHist = FALSE
 SPECIFICATION Spec
 INVARIANTS Refines C15 C05 C06 RangeIrrelevant NoTruncation
-VIEW View
+VIEW ViewBounded
 CHECK_DEADLOCK FALSE
